@@ -3,20 +3,20 @@ REAL_TIMER = ['github.com/acquirecloud/golibs/timeout (rewritten copy of the cur
 SIM_COMMON = ['goroutine scheduling (seeded scheduler over zsimrt yields; in 1/8 of the runs a scheduling point before every statement, read-modify-write statements split into load/store)', 'clock and timers (testing/synctest fake clock, moved only by the scheduler; timer channels with the semantics of Go >= 1.23 or, in 1/3 of the runs, of earlier releases)', 'lock discipline monitor (lockset per map held in a struct field and per object documented as unsafe for concurrent use)']
 
 REAL_LOCK = ['kvs/distlock (rewritten copy)', 'kvs/inmem (rewritten copy) or kvs/redis + go-redis + miniredis as the shared storage', 'timeout (rewritten copy) for lease timers, shared with background users in some runs', 'chans (rewritten copy)', 'oklog/ulid (rewritten copy of the dependency)']
-SIM_LOCK = SIM_COMMON + ['storage seam: per-node kvs.Storage wrapper that parks before and after every call and injects request-lost / reply-lost / partition / stall faults by call ordinal, slow replies, wrapped errors, outages of one node', 'context cancellation (canceller tasks released by the scheduler, or simulated timers)']
+SIM_LOCK = SIM_COMMON + ['storage seam: per-node kvs.Storage wrapper that parks before and after every call and injects request-lost / reply-lost / partition / stall faults by call ordinal, slow replies, wrapped errors, failures as plain errors or gRPC status errors, a storage that ignores the context of its short calls (some runs), outages of one node', 'context cancellation (canceller tasks released by the scheduler, or simulated timers)']
 ASSUME_LOCK = ['scheduler fairness bound F', 'interleavings at yield granularity (storage call boundaries, lock/channel/atomic/select inside distlock, inmem, timeout)', 'per-step jitter is capped at lease/(16*F) so the scheduler cannot starve a renewal past its lease']
 
 REAL_KV = ['kvs/inmem (rewritten copy)', 'kvs/redis client code (rewritten copy) + the real go-redis v8 client', 'ulidutils (rewritten copy) + oklog/ulid (rewritten copy of the dependency: version generation)']
-SIM_KV = SIM_COMMON + ['Redis server: in-process miniredis (command semantics are its own), TCP listener closed', 'network: net.Pipe pairs with pump goroutines that park before every command delivery and every reply (command-level interleaving between connections; optional latency per command)', 'Redis TTL clock: slaved to the simulated clock before every delivered command']
+SIM_KV = SIM_COMMON + ['Redis server: in-process miniredis (command semantics are its own), TCP listener closed', 'network: net.Pipe pairs with pump goroutines that park before every command delivery and every reply (command-level interleaving between connections; optional latency per command)', 'Redis TTL clock: slaved to the simulated clock before every delivered command (optionally skewed)', 'stalled threads: callers inside WaitForVersionChange that get no processor for up to seconds of simulated time (some runs)', 'Redis server that answers with error replies for a while (some C07 runs)']
 ASSUME_KV = ['scheduler fairness bound F', 'interleavings at yield granularity: every lock/select/channel point in inmem; every command and reply delivery for Redis', 'miniredis stands in for Redis (as in the repository\'s own tests)']
 
 REAL_LRU = ['container/lru (rewritten copy: cooperative mutex, in-flight channel wait through zsimrt.Recv)', 'container/iterable Map (rewritten copy; test-only node counter)']
-SIM_LRU = SIM_COMMON + ['create function and delete callback (harness functions: park at entry/exit, sleep simulated time, fail by plan, record arguments)']
+SIM_LRU = SIM_COMMON + ['create function and delete callback (harness functions: park at entry/exit, sleep simulated time, fail by plan - error, panic or runtime.Goexit -, record arguments; some caches are built without a delete callback)']
 
 PROPS = {
     'C17': dict(world='blocks', quick=dict(budget_s=22), thorough=dict(budget_s=600),
                 real=['container/bytes.Blocks (rewritten copy: cooperative mutex, yields at atomics)', 'files.MMFile on a real file in the scratch directory (part of the runs)'],
-                simulated=SIM_COMMON + ['disk: SimBuffer, a byte slice behind bytes.Buffer that parks on every Buffer() call, fails planned calls and is snapshotted (= the bytes a crashed process leaves behind) at arbitrary steps, including steps with operations in flight'],
+                simulated=SIM_COMMON + ['disk: SimBuffer, a byte slice behind bytes.Buffer that parks on every Buffer() call, fails planned calls and is snapshotted (= the bytes a crashed process leaves behind) at arbitrary steps, including steps with operations in flight, and that moves its memory (reallocation) under the live allocator in some single-task runs'],
                 assumptions=['scheduler fairness bound F', 'block sizes 1..64 in the quick tier; 128..1024 and 4096 (one segment, few runs) in the thorough tier; 8192 and 12288 are not run (a segment is 0.5-1.2 GiB)', 'a reopened snapshot must equal the model give or take the operations in flight at the snapshot']),
     'C08': dict(world='lru', quick=dict(budget_s=15), thorough=dict(budget_s=420), real=REAL_LRU, simulated=SIM_LRU,
                 assumptions=['one task: the scheduler has nothing to choose; what is sampled is call sequences, capacities 1-4 and 64, create-function failures and clock jumps (ExpirableCache)', 'expiry instants and jump sizes never coincide exactly']),
